@@ -40,6 +40,10 @@ def valid_frame(rng, kind=None, seq=None, maxlen=60):
     if rng.random() < 0.05:
         fl |= rng.randrange(4) << 4
     ln = rng.choice([0, 0, 1, 2, 5, 8]) if rng.random() < 0.4 else rng.randrange(0, maxlen)
+    if rng.random() < 0.06:
+        # large frames: the receiver puts no upper bound on the length field (a body above the 247 bytes the host's own
+        # transmitter uses, and lengths that need more than 12 bits)
+        ln = rng.choice([243, 244, 247, 248, 249, 300, 700, 4084, 4085, 4089, 5000])
     data = noise(rng, ln) if rng.random() < 0.3 else rand_bytes(rng, ln)
     hdr = rng.randrange(1 << 32) if fl & 0x40 else None
     return build_frame_bytes(hdr, data, fl)
